@@ -77,7 +77,7 @@ Definition expect (v : nat) (copy to pre simple : bool) (ret team : nat) : bool 
 Theorem C04_spawn_table_sound :
   forallb (fun b => b)
     [ expect 0 false false false false 0 0; expect 1 false true false false 0 0; expect 2 true false false false 0 0;
-      expect 3 true true false false 0 0; expect 4 false false false false 1 0; expect 5 false true false false 1 0;
+      expect 3 true true false false 1 0 (* declared with a syncvar_t return location: /repo f9ee21a *); expect 4 false false false false 1 0; expect 5 false true false false 1 0;
       expect 6 true false false false 1 0; expect 7 true false false true 1 0; expect 8 false false true false 0 0;
       expect 9 false true true false 0 0; expect 10 false false true true 0 0; expect 11 true false true false 1 0;
       expect 12 false false false false 0 1; expect 13 false false false false 0 2; expect 14 false true false false 0 1;
